@@ -377,14 +377,21 @@ def _drm_cases(ctx):
         if route in ("default", "solveunc-h-pre"):
             nrb = r if rng.random() < 0.5 else int(rng.integers(1, r + 1))
             phib = np.eye(r) if nrb == r else rng.standard_normal((r, nrb))
-            M, B, K, _ = _gen_struct(rng, r, int(rng.integers(1, 6)), phib, ("prop", "modal", "nonprop")[it % 3])
+            M, B, K, phi_rb = _gen_struct(rng, r, int(rng.integers(1, 6)), phib, ("prop", "modal", "nonprop")[it % 3])
             n_ = M.shape[0]
             if route == "solveunc-h-pre" or it % 7 == 3:
                 # one heavy dashpot in a lightly damped structure: the elastic roots mix over-damped (real) and
-                # under-damped (complex) eigenvalues
+                # under-damped (complex) eigenvalues.  The dashpot acts on the elastic deformation only (projected so that
+                # B phi_rb = 0 still holds): a grounded dashpot would turn the rigid-body modes into nearly defective
+                # zero roots of the complex eigenproblem, whose accuracy (measured: down to 5e-5) is a property of the
+                # eigen-solver and not of the Norton-Thevenin algebra
                 i = int(rng.integers(0, n_))
-                B = B.copy()
-                B[i, i] += 2.0 * math.sqrt(abs(K[i, i]) * M[i, i]) * float(rng.uniform(1.5, 6.0))
+                Pj = np.eye(n_) - phi_rb @ np.linalg.solve(phi_rb.T @ phi_rb, phi_rb.T)
+                e = np.zeros((n_, 1))
+                e[i, 0] = 1.0
+                cdash = 2.0 * math.sqrt(abs(K[i, i]) * M[i, i]) * float(rng.uniform(1.5, 6.0))
+                B = B + cdash * (Pj.T @ e @ e.T @ Pj)
+                B = (B + B.T) / 2
                 stiff = True
             if it % 5 == 0:
                 T = rng.standard_normal((r, n_))  # dense recovery matrix
